@@ -5,7 +5,7 @@ EXTENDS Naturals, Sequences, FiniteSets, TLC, Json
 CONSTANTS Thorough, Seed
 VARIABLES stage, a, b
 
-Kinds == << "encode", "decode_shared", "protect_unprotect", "ike_derive", "derive_child", "dh", "transforms", "eap", "rand", "new_ike_sa", "strings", "builders", "cipher", "transform_stress", "codec_stress" >>
+Kinds == << "encode", "decode_shared", "protect_unprotect", "ike_derive", "derive_child", "dh", "transforms", "eap", "rand", "new_ike_sa", "strings", "builders", "cipher", "transform_stress", "codec_stress", "eap_stress", "keys_stress" >>
 NK == Len(Kinds)
 Rep(k, n) == [i \in 1..n |-> k]
 Mixed(off, n) == [i \in 1..n |-> Kinds[((i + off) % NK) + 1]]
